@@ -148,6 +148,9 @@ impl Interpreter {
         // That feels like overkill so for now we're just doing this.
         match first_word.to_ascii_uppercase().as_str() {
             "RUN" => {
+                // A reply that was provided but not consumed yet (because the
+                // host broke in first) must not leak into the new run.
+                self.input = None;
                 self.variables = Variables::default();
                 self.arrays = Arrays::default();
                 self.program.run_from_first_numbered_line();
